@@ -364,14 +364,23 @@ def plain_config(p, save_dir, chunks_dir, slp, key):
             "use_wandb": p["use_wandb"],
             "save_ckpt": p["save_ckpt"],
             "save_ckpt_path": save_dir,
-            "resume_ckpt_path": None,
+            "resume_ckpt_path": resume_ckpt(p, save_dir),
             "wandb": {"entity": None, "project": "simproj", "name": "simrun", "wandb_mode": p.get("wandb_mode"),
-                      "api_key": key, "prv_runid": None, "group": None},
+                      "api_key": key, "prv_runid": resume_runid(p), "group": None},
             "optimizer_name": p.get("optimizer", "Adam"),
             "optimizer": {"lr": 1e-4, "amsgrad": False},
             "lr_scheduler": lr_section(p.get("lr_sched", "plateau")),
         },
     }
+
+
+def resume_ckpt(p, save_dir):
+    """Resuming: continue from the checkpoint the earlier run in this folder left (history `rerun`, same model type)."""
+    return os.path.join(save_dir, "best.ckpt") if p.get("resume") else None
+
+
+def resume_runid(p):
+    return f"sim{p['seed'] % 100000:05d}r1" if (p.get("resume") and p["use_wandb"]) else None  # the earlier run's id in the fake service
 
 
 PLATEAU = {"threshold": 1e-7, "threshold_mode": "rel", "cooldown": 3, "patience": 5, "factor": 0.5, "min_lr": 1e-8}
@@ -427,6 +436,7 @@ def build_config(p, save_dir, chunks_dir, slp, key):
         max_epochs=tc["max_epochs"], seed=1000, use_wandb=p["use_wandb"], save_ckpt=p["save_ckpt"],
         save_ckpt_path=save_dir, wandb_project="simproj", wandb_name="simrun", wandb_api_key=key,
         wandb_mode=p.get("wandb_mode"), learning_rate=1e-4, optimizer=p.get("optimizer", "Adam"),
+        resume_ckpt_path=resume_ckpt(p, save_dir), wandb_resume_prv_runid=resume_runid(p),
         lr_scheduler={"plateau": {"reduce_lr_on_plateau": dict(PLATEAU)}, "step": "step_lr", "both_null": None, "null": None}[p.get("lr_sched", "plateau")],
         early_stopping=bool(tc["early_stopping"] and tc["early_stopping"]["stop_training_on_plateau"]),
     )
@@ -600,6 +610,13 @@ def run_trainer_child(plan, root, key):
         mt.psutil = _FakePsutil
     if labels is not None:
         sio.load_slp = lambda path, **kw: labels
+    if plan.get("resume"):
+        # sandbox shim (child process only): torch >= 2.6 defaults torch.load(weights_only=True), under which Lightning cannot
+        # re-load its own checkpoints that carry the OmegaConf hyper-parameters; the torch the repository targets loads them
+        import torch
+
+        _tl = torch.load
+        torch.load = lambda *a, **k: _tl(*a, **{**k, "weights_only": False})
     trainer = None
     sink = io.StringIO()
     mon.start(roots, on_event=on_event)
@@ -608,7 +625,7 @@ def run_trainer_child(plan, root, key):
             if plan.get("rerun"):
                 # history: an EARLIER run with another configuration (and another key) already used this output folder
                 p0 = dict(plan, epochs=3 - plan.get("epochs", 1), save_last=not bool(plan["save_last"]), aug=True, early=True,
-                          delete_chunks=False)  # the earlier run kept its chunk files
+                          delete_chunks=False, resume=False)  # the earlier run kept its chunk files
                 if plan.get("rerun_other_model"):
                     p0["model_type"] = plan["rerun_other_model"]  # ... and was another model type (another number of samples)
                 cfg0 = build_config(p0, out_dir, chunks_dir, slp, prev_key)
